@@ -37,7 +37,34 @@ func fixRelativeAddr(from uintptr, copyOrigin []byte, trampoline uintptr, funcSi
 
 	// real replace
 	fixedData, _, err = fixBlock(from, copyOrigin, trampoline, fixedDataSize, fixedDataSize)
+	if err == nil && len(fixedData) != fixedDataSize {
+		// 有指令被扩展, 拷贝区内部的相对跳转(未被修正)将落到错误的位置, 不支持
+		err = checkJumpInside(from, fixedDataSize, copyOrigin)
+	}
 	return
+}
+
+// checkJumpInside check if exists the instruction in the first :size bytes of originData
+// that jump to an address inside the first :size bytes (including the start).
+func checkJumpInside(from uintptr, size int, originData []byte) error {
+	for pos := 0; pos < size; {
+		ins, _, err := bytecode.ParseIns(pos, originData)
+		if err != nil {
+			panic("checkJumpInside err:" + err.Error())
+		}
+		if ins == nil {
+			break
+		}
+		if ins.PCRelOff > 0 {
+			relativeAddr := bytecode.DecodeRelativeAddr(ins, originData, pos+ins.PCRelOff)
+			if target := relativeAddr + pos + ins.Len; target >= 0 && target < size {
+				return fmt.Errorf("not support of jump to inside of the relocated instructions after expanding\n"+
+					"jump address is: 0x%x", uintptr(target)+from)
+			}
+		}
+		pos = pos + ins.Len
+	}
+	return nil
 }
 
 // fixBlock 替换函数字节码中的相对地址(如果有的话)
